@@ -20,7 +20,7 @@ import (
 var noWriteOps = map[string]bool{
 	"phydec": true, "phytextdec": true, "macdec": true, "macdecinto": true, "stream": true, "phycanon": true,
 	"appdec": true, "appdecs": true, "hexdec": true, "timedec": true, "freqdec": true, "pctdec": true, "kunwrap": true,
-	"cflistdec": true, "cmddec": true, "rawcrypt": true, "rawja": true, "jsonpl": true, "idparse": true,
+	"cflistdec": true, "cmddec": true, "rawcrypt": true, "rawja": true, "jsonpl": true, "idparse": true, "subdec": true,
 	"alias_dec": true, "alias_prop": true, "alias_data": true, "alias_app": true,
 	"reuse_phy": true, "reuse_macpl": true, "reuse_ja": true, "reuse_cfl": true, "reuse_app": true, "reuse_apppl": true,
 	"valup": true, "valupf": true, "valdown": true, "valjoin": true, "valja": true,
@@ -135,6 +135,28 @@ func init() {
 			return okStr("ja-ERR"), nil
 		}
 		return okStr(fmtFrame(&p)), nil
+	}
+	// subdec <kind> <up> x<bytes>: every exported binary / text decoder of a sub-structure called directly (the frame decoders
+	// only ever hand them slices of the right length); value or error are both fine, the verdict is about PANIC / HANG
+	opTable["subdec"] = func(r *tokReader) (string, error) {
+		kind, err := r.next()
+		if err != nil {
+			return "", err
+		}
+		up, err := r.u64()
+		if err != nil {
+			return "", err
+		}
+		b, err := r.hex()
+		if err != nil {
+			return "", err
+		}
+		f, ok := subDecoders[kind]
+		if !ok {
+			return "", fmt.Errorf("subdec kind")
+		}
+		_ = f(up != 0, b)
+		return okStr("done"), nil
 	}
 	// jsonpl <type index> x<text>: json.Unmarshal into a backend payload struct; value or error, both fine
 	opTable["jsonpl"] = func(r *tokReader) (string, error) {
@@ -561,4 +583,35 @@ func sameOrChangedDiff(used, fresh string) string {
 		return okStr("same")
 	}
 	return okStr("DIFF")
+}
+
+var subDecoderNames = []string{"MHDR", "FCtrl", "FHDR", "ChMask", "Redundancy", "DLSettings", "DLSettingsText", "Version", "ADRParam", "DevNonce", "JoinNonce",
+	"DataPayload", "JoinRequest", "JoinAccept", "Rejoin02", "Rejoin1", "CFList", "CFListChannels", "CFListMasks", "MACPayload", "MACCommand", "DevAddr", "NetID", "EUI64", "AES128Key"}
+
+var subDecoders = map[string]func(up bool, b []byte) error{
+	"MHDR":           func(up bool, b []byte) error { var v lw.MHDR; return v.UnmarshalBinary(b) },
+	"FCtrl":          func(up bool, b []byte) error { var v lw.FCtrl; return v.UnmarshalBinary(b) },
+	"FHDR":           func(up bool, b []byte) error { var v lw.FHDR; return v.UnmarshalBinary(up, b) },
+	"ChMask":         func(up bool, b []byte) error { var v lw.ChMask; return v.UnmarshalBinary(b) },
+	"Redundancy":     func(up bool, b []byte) error { var v lw.Redundancy; return v.UnmarshalBinary(b) },
+	"DLSettings":     func(up bool, b []byte) error { var v lw.DLSettings; return v.UnmarshalBinary(b) },
+	"DLSettingsText": func(up bool, b []byte) error { var v lw.DLSettings; return v.UnmarshalText(b) },
+	"Version":        func(up bool, b []byte) error { var v lw.Version; return v.UnmarshalBinary(b) },
+	"ADRParam":       func(up bool, b []byte) error { var v lw.ADRParam; return v.UnmarshalBinary(b) },
+	"DevNonce":       func(up bool, b []byte) error { var v lw.DevNonce; return v.UnmarshalBinary(b) },
+	"JoinNonce":      func(up bool, b []byte) error { var v lw.JoinNonce; return v.UnmarshalBinary(b) },
+	"DataPayload":    func(up bool, b []byte) error { var v lw.DataPayload; return v.UnmarshalBinary(up, b) },
+	"JoinRequest":    func(up bool, b []byte) error { var v lw.JoinRequestPayload; return v.UnmarshalBinary(up, b) },
+	"JoinAccept":     func(up bool, b []byte) error { var v lw.JoinAcceptPayload; return v.UnmarshalBinary(up, b) },
+	"Rejoin02":       func(up bool, b []byte) error { var v lw.RejoinRequestType02Payload; return v.UnmarshalBinary(up, b) },
+	"Rejoin1":        func(up bool, b []byte) error { var v lw.RejoinRequestType1Payload; return v.UnmarshalBinary(up, b) },
+	"CFList":         func(up bool, b []byte) error { var v lw.CFList; return v.UnmarshalBinary(b) },
+	"CFListChannels": func(up bool, b []byte) error { var v lw.CFListChannelPayload; return v.UnmarshalBinary(up, b) },
+	"CFListMasks":    func(up bool, b []byte) error { var v lw.CFListChannelMaskPayload; return v.UnmarshalBinary(up, b) },
+	"MACPayload":     func(up bool, b []byte) error { var v lw.MACPayload; return v.UnmarshalBinary(up, b) },
+	"MACCommand":     func(up bool, b []byte) error { var v lw.MACCommand; return v.UnmarshalBinary(up, b) },
+	"DevAddr":        func(up bool, b []byte) error { var v lw.DevAddr; return v.UnmarshalBinary(b) },
+	"NetID":          func(up bool, b []byte) error { var v lw.NetID; return v.UnmarshalBinary(b) },
+	"EUI64":          func(up bool, b []byte) error { var v lw.EUI64; return v.UnmarshalBinary(b) },
+	"AES128Key":      func(up bool, b []byte) error { var v lw.AES128Key; return v.UnmarshalBinary(b) },
 }
